@@ -70,6 +70,18 @@ def build_pool(tier):
             P.append({"api": "search", "s": t, "lang": l, "si": si, "nobase": False, "adl": si % 3 == 0})
         P.append({"api": "search", "s": t, "lang": l, "si": 0, "nobase": True, "adl": False})
         P.append({"api": "search", "s": t, "lang": l, "si": 1, "nobase": True, "adl": False})
+    for langs in (["fr", "en"], ["de", "en"], ["es", "en", "fr"]):
+        for s in ("02/03/2015", "12 mai 2015", "yesterday"):
+            for ugo in (False, True):
+                for si in (0, 1, 14):
+                    P.append({"api": "ddp", "s": s, "lang": None, "langs": langs, "ugo": ugo, "si": si, "nobase": False})
+    for loc in ("en-SG", "en-CA", "es-MX", "fr-HT", "fr-BE", "de-AT", "en-GB"):
+        for s in ("3 mth ago", "last mth", "la semana próxima", "il y a 3 hr", "02/03/2015", "in 2 mth"):
+            P.append({"api": "ddp", "s": s, "lang": None, "locales": [loc], "si": 0, "nobase": False})
+    for lang in ("en", "es", "fr", "de"):
+        for s in ("3 mth ago", "last mth", "la semana próxima", "il y a 3 hr", "in 2 mth"):
+            P.append({"api": "parse", "s": s, "lang": lang, "si": 0, "nobase": False})
+            P.append({"api": "parse", "s": s, "lang": lang, "si": 4, "nobase": False})
     for l, s in BAD_LANG:
         P.append({"api": "parse", "s": s, "lang": l, "si": 0, "nobase": False})
         P.append({"api": "ddp", "s": s, "lang": l, "si": 1, "nobase": False})
@@ -103,7 +115,7 @@ def settings_of(call):
 
 
 def inst_key(call):
-    return "%s|%s|%s" % (call["lang"], call.get("si", repr(sorted((call.get("st") or {}).items()))), call["nobase"])
+    return "%s|%s|%s|%s|%s|%s" % (call.get("locales"), call.get("langs"), call.get("ugo"), call["lang"], call.get("si", repr(sorted((call.get("st") or {}).items()))), call["nobase"])
 
 
 # ------------------------------------------------------------------ outcomes
@@ -123,7 +135,12 @@ def execute(call, insts=None, guard=None):
     """Run one call at the API boundary; return the canonical outcome (JSON-able)."""
     api, s, lang = call["api"], call["s"], call["lang"]
     st = settings_of(call)
-    langs = [lang] if lang else None
+    langs = list(call["langs"]) if call.get("langs") else ([lang] if lang else None)
+    extra = {}
+    if call.get("ugo"):
+        extra["use_given_order"] = True
+    if call.get("locales"):
+        extra["locales"] = list(call["locales"])
     st0, langs0 = copy.deepcopy(st), copy.deepcopy(langs)
     now = datetime.now(timezone.utc).replace(tzinfo=None) if call["nobase"] else None
     try:
@@ -138,10 +155,10 @@ def execute(call, insts=None, guard=None):
             if api == "inst":
                 key = inst_key(call)
                 if key not in insts:
-                    insts[key] = DateDataParser(languages=langs, settings=st)
+                    insts[key] = DateDataParser(languages=langs, settings=st, **extra)
                 p = insts[key]
             else:
-                p = DateDataParser(languages=langs, settings=st)
+                p = DateDataParser(languages=langs, settings=st, **extra)
             d = p.get_date_data(s)
             out = ["ok", [dt_out(d["date_obj"], now), d["period"], d["locale"]]]
         elif api == "search":
